@@ -6,7 +6,7 @@ namespace Verif.Proofs.DataURI
 open Verif Verif.Model.DataURI
 namespace S
 export Verif.Spec.Rfc2397 (ws lower stripWs trim splitLastSemi splitMarker splitURL rfcParse splitSemi mtNorm
-  headItems trigB64Item trigPlus trigParamNoType trigTextPlainPrefix b64Decode pctDecode sextet)
+  headItems trigB64Item trigPlus trigParamNoType b64Decode pctDecode sextet)
 end S
 
 /-! ## the spec's character classes are the model's (both are transcriptions of the same five bytes) -/
